@@ -24,9 +24,11 @@ STORAGE_ASSUME = [
 
 PROTO_HARNESS = [
     {"bin": "proto_diff", "model": True, "stateful": True, "name": "proto_diff-mem",
-     "quick": ["--backend", "mem", "--hist", "40", "--steps", "45"], "thorough": ["--backend", "mem", "--hist", "2500", "--steps", "60"]},
+     "quick": ["--backend", "mem", "--hist", "40", "--steps", "45"], "thorough": ["--backend", "mem", "--hist", "2500", "--steps", "60"],
+     "search": ["--backend", "mem", "--hist", "300", "--steps", "45"]},
     {"bin": "proto_diff", "model": True, "stateful": True, "name": "proto_diff-sqlite",
-     "quick": ["--backend", "sqlite", "--hist", "10", "--steps", "40"], "thorough": ["--backend", "sqlite", "--hist", "400", "--steps", "60"]},
+     "quick": ["--backend", "sqlite", "--hist", "10", "--steps", "40"], "thorough": ["--backend", "sqlite", "--hist", "400", "--steps", "60"],
+     "search": ["--backend", "sqlite", "--hist", "60", "--steps", "45"]},
 ]
 PROTO_TRUST = [
     "modelled, not verified: OpenMLS 0.8.1 as a symbolic oracle (a group state is named by the commit that produced it; the outer NIP-44 layer opens iff the receiver holds the exporter secret of the sender's state; WrongEpoch / own-message / consumed-ratchet-key / missing-by-reference-proposal reactions), NIP-44, the nostr crate; the engine model's fingerprints are compared with real clients on every run (both backends)",
@@ -132,7 +134,7 @@ REGISTRY = {
     "C06": {"props_file": "Props/C06.v", "gen": [], "harness": PROTO_HARNESS + [
         {"bin": "codec_diff", "model": True, "canon": ["panic_is_err"], "quick": ["--n", "200"], "thorough": ["--n", "6000"]},
         {"bin": "storage_diff", "model": True, "stateful": True, "name": "storage_diff-mem", "quick": ["--backend", "mem", "--seqs", "25", "--len", "50"], "thorough": ["--backend", "mem", "--seqs", "600", "--len", "80"]}], "trusted_base": PROTO_TRUST, "assumptions": PROTO_ASSUME},
-    "C07": {"props_file": "Props/C07.v", "gen": [], "harness": PROTO_HARNESS, "trusted_base": PROTO_TRUST, "assumptions": PROTO_ASSUME},
+    "C07": {"props_file": "Props/C07.v", "props_file_extra": ["Props/C07b.v"], "gen": [], "harness": PROTO_HARNESS, "trusted_base": PROTO_TRUST, "assumptions": PROTO_ASSUME},
     "C08": {"props_file": "Props/C08.v", "gen": [], "harness": PROTO_HARNESS, "trusted_base": PROTO_TRUST, "assumptions": PROTO_ASSUME},
     "C03": {"props_file": "Props/C03.v", "gen": [], "harness": PROTO_HARNESS, "trusted_base": PROTO_TRUST, "assumptions": PROTO_ASSUME},
     "C05": {"props_file": "Props/C05.v", "gen": [], "harness": PROTO_HARNESS, "trusted_base": PROTO_TRUST, "assumptions": PROTO_ASSUME},
